@@ -67,6 +67,11 @@ def placeholder_dump(tree, path):
         lst[idx] = old
 
 
+# sequences put as slices: the first is indented inconsistently (one line less than what re-indentation removes)
+ML_SEQ_DONORS = ['[\n        c,\n  d, e,\n    f\n]', '[\n        c,  # one\n        d(1,\n   2), e,\n            f\n]',
+                 '(\n            c,\n     d(1,\n  2), e,\n        f\n)']
+
+
 class Sweep:
     def __init__(self, name, src, payload):
         from fst import FST
@@ -102,7 +107,7 @@ class Sweep:
 
     def post_edit(self, root, key, what_op, v=None):
         """C02 postcondition after a successful edit that satisfied C01 (v is None)"""
-        if 'C02' in self.props and not v:
+        if 'C02' in self.props:   # (when the source does not parse there is no fresh tree: compare() returns None)
             from contracts import b_query
             q = b_query.compare(root)
             if q:
@@ -224,6 +229,9 @@ class Sweep:
         if 'optional' in ops:
             from contracts import b_edit_views
             b_edit_views.optional_steps(self, root, quick, rnd)
+        if 'move' in ops:
+            from contracts import b_edit_ext
+            b_edit_ext.move_steps(self, paths, quick, rnd)
         if 'pars' in ops:
             from contracts import b_edit_ext
             b_edit_ext.pars_steps(self, paths, quick, rnd)
@@ -256,6 +264,12 @@ class Sweep:
                     self.slice_step(path, fld, n, i, j, 'cut')
             for i in sorted({0, n // 2, n}):
                 self.slice_step(path, fld, n, i, i, 'insert_copy_first')
+            # multi-line donors whose own indentation is irregular (re-indentation of the put code)
+            ncls = (follow(root, path) if path else root).a.__class__.__name__
+            if fld in ('elts', 'args') or (fld == 'targets' and ncls == 'Delete'):
+                for i in sorted({0, n}):
+                    for d in range(len(ML_SEQ_DONORS)):
+                        self.slice_step(path, fld, n, i, i, f'donor_ml{d}')
 
     def slice_step(self, path, fld, n, i, j, kind):
         def law(root0, node0):
@@ -285,6 +299,12 @@ class Sweep:
             elif kind == 'cut':
                 node.get_slice(i, j, fld, cut=True)
                 exp = old[:i] + old[j:]
+            elif kind.startswith('donor_ml'):
+                code = ML_SEQ_DONORS[int(kind[8:])]
+                piece = self.FST(code)
+                new_elems = [sdump(e) for e in ast.parse(code, mode='eval').body.elts]
+                node.put_slice(piece, i, i, fld)
+                exp = old[:i] + new_elems + old[i:]
             else:
                 piece = node.get_slice(0, 1, fld)
                 node.put_slice(piece, i, i, fld)
@@ -301,6 +321,7 @@ class Sweep:
         key = f'slice@{slot}:{self.name}:{path}:{kind}[{i}:{j}]'
         if v:
             self.fail('C01', key, f'after {desc["op"]}: {v}', **desc, src_after=root.src[:400])
+            self.post_edit(root, key, desc['op'], v)
             return
         self.post_edit(root, key, desc['op'])
         if 'C03' in self.props or 'C08' in self.props:
@@ -372,7 +393,7 @@ def replay(payload):
     if name not in progs:
         return {'reproduced': False, 'note': 'program not in corpus'}
     prop = rep['key'].split('.')[0]
-    ops = ['self', 'remove', 'donor', 'slice', 'copy', 'accessors', 'views', 'optional']
+    ops = ['self', 'remove', 'donor', 'slice', 'copy', 'accessors', 'views', 'optional', 'move', 'pars', 'badopts', 'seq']
     r = work(name, progs[name], {'props': [prop], 'ops': ops, 'tier': 'thorough', 'seed': rep.get('seed', 0)})
     hit = [f for f in r['failures'] if f['key'] == rep['key']]
     return {'reproduced': bool(hit), 'failure': hit[:1]}
